@@ -3,6 +3,8 @@ package PKG
 // C02: multi-assignment (a, b = b, a and friends): assign2 and assignMulti.
 
 import (
+	"unsafe"
+
 	xr "github.com/cosmos72/gomacro/xreflect"
 )
 
@@ -162,5 +164,63 @@ func VH_C02_Multi_three() {
 		w, p2 := m[k1]
 		vhAssert(p2 && w == v1, "other map entries unchanged")
 	}
+	vhReach("end")
+}
+
+// `i, j := e0, e1` where i already exists in the scope (a short variable declaration that re-declares i assigns to it):
+// both expressions are evaluated before either variable is set, so `i, j := 7, i` gives j the old i.
+// The real Comp.DeclVars0 compiles the declaration (the initialisers are harness closures; e1 reads i's slot) and the
+// emitted statements are run in order.
+func VH_C02_defineRedeclares() {
+	c := vhComp()
+	var zero int
+	t := vhTypeOf(zero)
+	c.IntBindNum, c.BindNum = 1, 0
+	old := &Bind{Lit: Lit{Type: t}, Desc: IntBind.MakeDescriptor(0), Name: "i"}
+	c.Binds = map[string]*Bind{"i": old}
+	a, i0 := vhInt("a"), vhInt("old i")
+	env := &Env{Run: &Run{IrGlobals: &IrGlobals{}}}
+	env.Ints, env.Vals = make([]uint64, 4), make([]xr.Value, 4)
+	*(*int)(unsafe.Pointer(&env.Ints[0])) = i0
+	readI := func(*Env) int { return *(*int)(unsafe.Pointer(&env.Ints[0])) }
+	swapped := vhBool("the re-declared variable comes second")
+	names := []string{"i", "j"}
+	inits := []*Expr{exprFun(t, func(*Env) int { return a }), exprFun(t, readI)}
+	if swapped {
+		names = []string{"j", "i"}
+		inits = []*Expr{exprFun(t, readI), exprFun(t, func(*Env) int { return a })}
+	}
+	failed := false
+	func() {
+		defer func() {
+			if recover() != nil {
+				failed = true
+			}
+		}()
+		c.DeclVars0(names, nil, inits, nil)
+	}()
+	vhAssert(!failed, "compiles")
+	if failed {
+		return
+	}
+	bi, bj := c.Binds["i"], c.Binds["j"]
+	vhAssert(bi != nil && bj != nil && bi.Desc.Class() == IntBind && bj.Desc.Class() == IntBind, "both variables are bound")
+	if bi == nil || bj == nil {
+		return
+	}
+	ii, ij := bi.Desc.Index(), bj.Desc.Index()
+	vhAssert(ii != ij && ii >= 0 && ij >= 0 && ii < 4 && ij < 4, "distinct slots")
+	list := c.Code.List
+	sentinel := func(e *Env) (Stmt, *Env) { return nil, e }
+	env.Code = append(append([]Stmt{}, list...), sentinel)
+	env.IP = 0
+	st := env.Code[0]
+	for steps := 0; st != nil && steps < 8; steps++ {
+		st, _ = st(env)
+	}
+	gotI := *(*int)(unsafe.Pointer(&env.Ints[ii]))
+	gotJ := *(*int)(unsafe.Pointer(&env.Ints[ij]))
+	vhAssert(gotI == a, "the re-declared variable gets its new value")
+	vhAssert(gotJ == i0, "the other variable gets the value the re-declared one had before the statement")
 	vhReach("end")
 }
